@@ -349,6 +349,8 @@ def run_check(prop, tier, seed, t0, no_mc=False):
     # classification
     bad_idx = {i: cls for i, cls in bad}
     viol_dir = os.path.join(WORK, 'violations', prop)
+    import shutil
+    shutil.rmtree(viol_dir, ignore_errors=True)      # (replay files of earlier runs would be mistaken for current ones)
     os.makedirs(viol_dir, exist_ok=True)
     violations = []
     known_hits = {}
